@@ -271,44 +271,45 @@ Qed.
 Lemma forallb_repeat : forall (A : Type) (f : A -> bool) x n, f x = true -> forallb f (repeat x n) = true.
 Proof. intros A f x n H. induction n as [|n IH]; [reflexivity|]. cbn. rewrite H. exact IH. Qed.
 
-(* outside the three triggers an acknowledged upload leaves every replica with the
-   primary's outcome, and an acknowledged delete leaves the file deleted everywhere *)
+(* outside the two triggers an acknowledged upload leaves every replica with the
+   primary's outcome, and an acknowledged delete leaves the file served nowhere -
+   whatever the fault *)
 Theorem same_outcome_partial : forall u,
-  trig_lost_volume u = false -> trig_empty u = false -> trig_mime u = false ->
+  trig_empty u = false -> trig_mime u = false ->
   upload_consistent (upload_status u) (views_after_upload u) = true /\
   delete_consistent (delete_status u) (views_after_delete u) = true.
 Proof.
-  intros [q o nrepl fault d] Hlost Hemp Hmime.
+  intros [q o nrepl fault d] Hemp Hmime.
   set (u := {| u_req := q; u_oracles := o; u_nrepl := nrepl; u_fault := fault; u_delete := d |}) in *.
-  assert (Hrep : healthy_replicas u = 0 \/ (fault =? 3) = false).
-  { unfold trig_lost_volume in Hlost. cbn [u u_fault u_nrepl] in Hlost.
-    destruct (fault =? 3) eqn:Ef; [|right; reflexivity]. left.
-    cbn [andb] in Hlost. apply N.ltb_ge in Hlost. apply N.eqb_eq in Ef.
-    unfold healthy_replicas. cbn [u u_fault u_nrepl]. rewrite Ef. lia. }
   split.
   - unfold upload_consistent, views_after_upload.
-    destruct Hrep as [H0|Hf]; [rewrite H0; cbn [N.to_nat repeat forallb]; apply orb_true_r|].
-    apply orb_true_iff. right. apply forallb_repeat.
-    unfold replica_view. cbn [u u_fault]. rewrite Hf.
-    exact (same_outcome_views o q nrepl fault d Hemp Hmime).
+    destruct (fault =? 3) eqn:Ef.
+    + (* a listed location without the volume: the upload is not acknowledged *)
+      apply N.eqb_eq in Ef. unfold upload_status. cbn [u u_fault]. rewrite Ef. reflexivity.
+    + apply orb_true_iff. right. apply forallb_repeat.
+      unfold replica_view. cbn [u u_fault]. rewrite Ef.
+      exact (same_outcome_views o q nrepl fault d Hemp Hmime).
   - unfold delete_consistent, views_after_delete. apply orb_true_iff. right.
     assert (Hb : body_empty (n_body (primary_needle u)) = false) by exact Hemp.
-    cbn [forallb]. unfold deleted_view at 1. rewrite Hb. cbn [is_deleted blank so_state N.eqb orb andb].
-    destruct Hrep as [H0|Hf]; [rewrite H0; reflexivity|].
-    apply forallb_repeat. cbn [u u_fault]. rewrite Hf. unfold deleted_view.
+    cbn [forallb]. unfold deleted_view at 1. rewrite Hb.
+    assert (Hd : is_deleted (blank 2 false) = true) by reflexivity. rewrite Hd. cbn [andb].
+    apply forallb_repeat. cbn [u u_fault]. destruct (fault =? 3); [reflexivity|]. unfold deleted_view.
     unfold replica_needle, primary_needle in *. cbn [u u_req u_oracles] in *.
     rewrite (replica_body_nonempty o q Hb). reflexivity.
 Qed.
 
-(* an unreachable or failing replica makes both operations fail *)
+(* a replica that answers with an error, is unreachable, or is a volume server that
+   does not hold the volume makes the upload fail; the first two also make the delete fail *)
 Theorem failure_reported : forall u,
-  u_fault u = 1 \/ u_fault u = 2 ->
-  success (upload_status u) = false /\ success (delete_status u) = false.
+  (u_fault u = 1 \/ u_fault u = 2 \/ u_fault u = 3 -> success (upload_status u) = false) /\
+  (u_fault u = 1 \/ u_fault u = 2 -> success (delete_status u) = false).
 Proof.
-  intros u [H|H]; unfold upload_status, delete_status; rewrite H; split; reflexivity.
+  intros u. split.
+  - intros [H|[H|H]]; unfold upload_status; rewrite H; reflexivity.
+  - intros [H|H]; unfold delete_status; rewrite H; reflexivity.
 Qed.
 
-(* ---------- the full statement fails: three witnesses ---------- *)
+(* ---------- the full statement fails: witnesses ---------- *)
 
 Definition mk_upload (put : bool) (name ctype : string) (blen bcrc : N) (detect : string)
   (exts : list (string * string)) (nrepl fault : N) : upload :=
@@ -347,10 +348,12 @@ Theorem same_outcome_refuted_empty :
   map so_state (views_after_delete witness_empty) = [0; 2].
 Proof. vm_compute. repeat split. Qed.
 
-Theorem same_outcome_refuted_lost_volume :
-  success (upload_status witness_lost_volume) = true /\
+(* regression witness of the repaired defect: the location without the volume holds
+   nothing, and the upload is no longer acknowledged *)
+Theorem lost_volume_reported :
   map so_state (views_after_upload witness_lost_volume) = [0; 3] /\
-  upload_consistent (upload_status witness_lost_volume) (views_after_upload witness_lost_volume) = false.
+  upload_status witness_lost_volume = 500 /\
+  upload_consistent (upload_status witness_lost_volume) (views_after_upload witness_lost_volume) = true.
 Proof. vm_compute. repeat split. Qed.
 
 Theorem same_outcome_refuted : exists u,
